@@ -8,7 +8,7 @@ import (
 	"strings"
 	"time"
 
-	_ "github.com/verily-src/fhirpath-go/fhirpath/verifh/checks"
+	"github.com/verily-src/fhirpath-go/fhirpath/verifh/checks"
 	"github.com/verily-src/fhirpath-go/fhirpath/verifh/core"
 )
 
@@ -32,6 +32,10 @@ func main() {
 		nsh = v
 	}
 	switch os.Args[1] {
+	case "tzdigest":
+		for _, l := range checks.TZDigest() {
+			fmt.Println(l)
+		}
 	case "list":
 		for _, id := range core.IDs() {
 			fmt.Println(id)
